@@ -213,6 +213,7 @@ impl Prop for C08 {
         vec![
             Part { name: "shortcut-triggers".into(), strategy: s1, cases: tier.pick(150_000, 3_000_000) },
             Part { name: "random".into(), strategy: s2, cases: tier.pick(100_000, 2_000_000) },
+            Part { name: "scaled".into(), strategy: super::c01::scaled_part(&cfg, "ims").prop_map(|ast| Case08 { ast, rep: "[$0]".into(), text: None }).boxed(), cases: tier.pick(30_000, 400_000) },
         ]
     }
     fn enumerations(&self, tier: Tier) -> Vec<(String, String, Box<dyn Iterator<Item = Case08> + Send>)> {
